@@ -334,7 +334,7 @@ def expr_b(draw, env, depth, pure=True):
             return ["f", fn, [], [expr_s(draw, env, depth - 1), ["t", draw(st.sampled_from(["a", "b", "c", "B", "r", "ap"]))]]]
         return ["f", fn, [], [expr_s(draw, env, depth - 1), ["t", draw(st.integers(0, 6))]]]
     if k == "firsts":
-        return ["f", draw(st.sampled_from(["firstscan", "firstline"])), [], []]
+        return ["f", draw(st.sampled_from(["firstscan", "firstline", "after_blank", "after_blank"])), [], []]
     raise AssertionError(k)
 
 
@@ -345,6 +345,8 @@ def value_expr(draw, env, depth):
     if t == "track":
         nm, key = draw(st.sampled_from(sorted(env.tracks)))
         return ["vt", nm, key], "A"
+    if t == "sparse" and draw(st.integers(0, 2)) == 1:
+        return ["f", "end", [], [] if draw(st.booleans()) else [["t", draw(st.integers(0, 2))]]], "A"
     if t == "stack":
         nm = draw(st.sampled_from(sorted(env.stacks)))
         fn = draw(st.sampled_from(["pop", "peek", "peek_size", "size"]))
